@@ -60,13 +60,19 @@ def rules(ck, P):
                     if y.get("k") == "mcall" and ir.local_hid(y["recv"]) == lv["hid"] and (y["recv"].get("ta", "").startswith("&mut") or y["recv"].get("t", "").startswith("&mut")) and \
                             y.get("name") not in ("iter", "get", "len"):
                         muts.append((i, y["name"]))
-                    if y.get("k") in ("assign", "assignop") and ir.place_str(y["l"]).startswith(lv["name"] + "."):
+                    if y.get("k") in ("assign", "assignop") and ir.strip(y["l"]).get("k") == "field" and ir.local_hid(ir.strip(y["l"])["e"]) == lv["hid"]:
                         muts.append((i, "assign " + ir.place_str(y["l"])))
             okn = guard_i is not None and bool(muts) and all(i > guard_i for i, _ in muts)
             why = "guard at statement %s, mutations %s" % (guard_i, muts)
         ck.check(okn, "R-NAMED-LAYER", b["q"], "every mutation of a layer follows `if layer.name != args.layer_name { continue }`", "layer mutation is not confined to the named layer (%s)" % why, ir.loc(b))
         # other mutations of the tile
-        tmut = [n["name"] for n in ir.walk_nodes(b["body"]) if n.get("k") == "mcall" and ir.place_str(n["recv"]) in ("tile.layers", "tile") and n["recv"].get("ta", "").startswith("&mut") and n["name"] not in ("iter_mut",)]
+        def is_tile_or_layers(e):
+            e = ir.strip(e)
+            if e is None:
+                return False
+            t_ = (e.get("t") or "") + (e.get("ta") or "")
+            return "vector_tile::tile::VectorTile" in t_ or (e.get("k") == "field" and e.get("name") == "layers")
+        tmut = [n["name"] for n in ir.walk_nodes(b["body"]) if n.get("k") == "mcall" and is_tile_or_layers(n["recv"]) and n["recv"].get("ta", "").startswith("&mut") and n["name"] not in ("iter_mut",)]
         ck.check(not tmut, "R-NAMED-LAYER", b["q"] + "|tile", "the layer list itself is not modified", "layer list modified by %s" % tmut, ir.loc(b))
         # E-COMP
         dc = comp.calls_to(b, "compression::decompress")
@@ -80,8 +86,11 @@ def rules(ck, P):
         okr = False
         if st:
             f = {x["name"]: ir.place_str(x["e"]) for x in st[0]["fields"]}
-            okr = f.get("tile_compression", "").endswith("parameters.tile_compression")
-        asg = [n for n in ir.walk_nodes(b["body"]) if n.get("k") == "assign" and ir.place_str(n["l"]).endswith("parameters.tile_compression")]
+            okr = f.get("tile_compression", "").endswith(".tile_compression")
+            fe = [x["e"] for x in st[0]["fields"] if x["name"] == "tile_compression"]
+            okr = okr and bool(fe) and "TilesReaderParameters" in ((ir.strip(ir.strip(fe[0]).get("e") or {}).get("t") or "") + (ir.strip(ir.strip(fe[0]).get("e") or {}).get("ta") or ""))
+        asg = [n for n in ir.walk_nodes(b["body"]) if n.get("k") == "assign" and ir.strip(n["l"]).get("k") == "field" and ir.strip(n["l"]).get("name") == "tile_compression"
+               and "TilesReaderParameters" in ((ir.strip(ir.strip(n["l"])["e"]).get("t") or "") + (ir.strip(ir.strip(n["l"])["e"]).get("ta") or ""))]
         oka = len(asg) == 1 and (ir.strip(asg[0]["r"]).get("q") or "").endswith("TileCompression::Uncompressed::{Ctor#0}")
         # order: runner captures the compression before it is overwritten
         sts = ir.stmts_of(ir.fn_block(b)) if False else None
